@@ -329,6 +329,8 @@ pub fn run(prop: &str, tier: &str, replay: Option<&str>) -> i32 {
     }
     if prop == "C04" {
         c04_extras(&mut rep, &judge, thorough);
+        #[cfg(feature = "crypto")]
+        c04_reemission(&mut rep);
         super::c07::add_sections(&mut rep, prop, thorough, false);
         super::c08::add_sections(&mut rep, prop, thorough, false);
     }
@@ -340,6 +342,85 @@ pub fn run(prop: &str, tier: &str, replay: Option<&str>) -> i32 {
         super::c08::add_sections(&mut rep, prop, thorough, true);
     }
     run::finish(rep)
+}
+
+/// C04: what was imported is emitted again. Every foreign certificate / request of the reference-built corpus, plus
+/// names carrying values outside their string type's alphabet: when rcgen takes the input, everything it then emits
+/// from it (the re-issued CA, a leaf and a CRL under it, the certificate issued from the request) is canonical DER.
+#[cfg(feature = "crypto")]
+fn c04_reemission(rep: &mut Report) {
+    use crate::corpus::*;
+    use crate::glue::*;
+    use refmodel::x509::{decode_cert, decode_crl, decode_csr};
+    let zoo = load_zoo();
+    let z = zoo.iter().find(|z| z.kind == KeyKind::Ed25519).unwrap();
+    let ctx = stub_issuer_ctx(Alg::Ed25519, &DnSpec::cn("c04 issuer"), &KeyIdSpec::Sha256, Alg::Ed25519, "pair");
+    let mut cases: Vec<(String, Vec<u8>, bool)> = Vec::new();
+    for (l, d) in foreign_certs(&zoo) {
+        cases.push((l, d, true));
+    }
+    for (l, d, _) in foreign_csrs(&zoo) {
+        cases.push((l, d, false));
+    }
+    let signer = ossl_signer(z.pkey.clone(), Alg::Ed25519);
+    for (l, n) in off_alphabet_names() {
+        cases.push((format!("ca subject: {}", l), foreign_ca_with_name(n.clone(), &z.spki), true));
+        let cri = refmodel::der::seq(&[refmodel::der::uint(&[0]), n, z.spki.clone(), refmodel::der::ctx_cons(0, &[])]);
+        let sig = signer(&cri).unwrap();
+        cases.push((format!("csr subject: {}", l), refmodel::gen::assemble(&cri, Alg::Ed25519.sig_alg_der(), &sig), false));
+    }
+    let sec = Section::new("reemission/imported corpus", &format!("{} foreign certificates and requests (reference-built corpus + names with values outside their string type's alphabet under 4 attribute types): whenever rcgen imports one, the re-issued CA, a leaf and a CRL issued under it, or the certificate issued from the request, must be canonical DER with in-alphabet strings", cases.len()));
+    run::sweep_cases(&sec, &cases, &|c| c.0.clone(), &|c| {
+        let mut out = Outcome::default();
+        let issuer = ctx.issuer.as_ref().unwrap();
+        let kp = match &ctx.subject {
+            SubjectSrc::Pair(k) => k,
+            _ => unreachable!(),
+        };
+        let mut emitted: Vec<(&str, Vec<u8>, u8)> = Vec::new();
+        if c.2 {
+            if let Ok(Ok(p)) = guarded(|| rcgen::CertificateParams::from_ca_cert_der(&c.1.clone().into())) {
+                if let Ok(Ok(ca)) = guarded(|| p.clone().self_signed(kp)) {
+                    emitted.push(("re-issued CA", ca.der().to_vec(), 0));
+                    if let Ok(Ok(leaf)) = guarded(|| rcgen::CertificateParams::default().signed_by(kp, &ca, kp)) {
+                        emitted.push(("leaf under the imported CA", leaf.der().to_vec(), 0));
+                    }
+                    if let Ok(Ok(crl)) = guarded(|| to_crl_params(&base_crl_state()).unwrap().signed_by(&ca, kp)) {
+                        emitted.push(("CRL under the imported CA", crl.der().to_vec(), 2));
+                    }
+                    let mut as_nc = rcgen::CertificateParams::default();
+                    as_nc.is_ca = rcgen::IsCa::Ca(rcgen::BasicConstraints::Unconstrained);
+                    as_nc.name_constraints = Some(rcgen::NameConstraints { permitted_subtrees: vec![rcgen::GeneralSubtree::DirectoryName(p.distinguished_name.clone())], excluded_subtrees: vec![] });
+                    if let Ok(Ok(c2)) = guarded(|| as_nc.self_signed(kp)) {
+                        emitted.push(("imported name as a name constraint", c2.der().to_vec(), 0));
+                    }
+                }
+            }
+        } else if let Ok(Ok(p)) = guarded(|| rcgen::CertificateSigningRequestParams::from_der(&c.1.clone().into())) {
+            let again = guarded(|| p.params.serialize_request(kp));
+            if let Ok(Ok(cert)) = guarded(|| p.signed_by(&issuer.cert, &issuer.key)) {
+                emitted.push(("certificate issued from the request", cert.der().to_vec(), 0));
+            }
+            if let Ok(Ok(csr)) = again {
+                emitted.push(("request generated again from the parsed parameters", csr.der().to_vec(), 1));
+            }
+        }
+        for (what, der, kind) in emitted {
+            out.transitions += 1;
+            out.digest ^= fnv(&der);
+            let findings = match kind {
+                0 => decode_cert(&der).findings,
+                1 => decode_csr(&der).findings,
+                _ => decode_crl(&der).findings,
+            };
+            for f in findings.into_iter().filter(|f| crate::certeval::relevant("C04", f)) {
+                out.findings.push(Finding::new(&f.rule, what, format!("{} @ {}", f.detail, f.locus)));
+            }
+        }
+        out.findings.dedup_by(|a, b| a.sig() == b.sig());
+        out
+    });
+    rep.add(sec);
 }
 
 /// C04: value-dependent DER rules — every serial byte string of length <= 2, boundary prefixes for longer ones.
